@@ -1,20 +1,9 @@
-(* avm <prop> <casefile>: each line "input => implresult"; evaluates the extracted Coq model on
+(* <prop>/avm <casefile> (one executable per property, linked with that property's Model and Drv): each line "input => implresult"; evaluates the extracted Coq model on
    input, judges the implementation's result, prints VIOL / DIFF lines and a one-line summary. *)
 open Verdict
 
-type driver = {
-  run : string -> string;
-  judge : string -> string -> string -> verdict;
-  tag : string -> string -> string;
-}
-
-let drivers : (string * driver) list = [
-  ("c14", { run = Drv_c14.run; judge = Drv_c14.judge; tag = Drv_c14.tag });
-]
-
 let () =
-  let prop = Sys.argv.(1) and file = Sys.argv.(2) in
-  let d = try List.assoc prop drivers with Not_found -> (prerr_endline "unknown prop"; exit 2) in
+  let file = Sys.argv.(1) in
   let ic = open_in file in
   let n = ref 0 and agree = ref 0 and diff = ref 0 and viol = ref 0 and errors = ref 0 in
   let seen = Hashtbl.create 1024 and tags = Hashtbl.create 64 in
@@ -29,8 +18,8 @@ let () =
       if idx < 0 then (incr errors; Printf.printf "BADLINE %d %s\n" !n line) else begin
         let input = String.sub line 0 idx in
         let impl = String.sub line (idx + 4) (String.length line - idx - 4) in
-        let model = try d.run input with e -> "MODEL-EXN:" ^ Printexc.to_string e in
-        (match d.judge input impl model with
+        let model = try Drv.run input with e -> "MODEL-EXN:" ^ Printexc.to_string e in
+        (match Drv.judge input impl model with
          | Agree -> incr agree
          | Mismatch why ->
            incr diff; Printf.printf "DIFF\t%d\t%s\t%s\timpl=%s\tmodel=%s\n" !n why input impl model
@@ -38,7 +27,7 @@ let () =
            incr viol; Printf.printf "VIOL\t%d\t%s\t%s\t%s\timpl=%s\tmodel=%s\n" !n cls why input impl model);
         if not (Hashtbl.mem seen input) then begin
           Hashtbl.add seen input ();
-          let t = d.tag input model in
+          let t = Drv.tag input model in
           Hashtbl.replace tags t (1 + (try Hashtbl.find tags t with Not_found -> 0))
         end
       end
